@@ -632,5 +632,5 @@ fn nontrivial(op: &str, args: &[&str]) -> bool {
 
 fn main() {
     harness_main(Spec { prop: "C12", gen, exec, nontrivial, hang_secs: 20,
-        rule: "every shape rank<=4 len<=3 (+ lengths 4-5): flip none / every axis +- / every ordered pair / triples; flipud, fliplr; roll along the flat order for shifts in [-3n,3n] (+ far beyond), along every axis +- for every shift in [-3d,3d] (+ far beyond), 2-element axis/shift lists incl. repeated axes and one shift for two axes; rot90 k=0..7 x every ordered axis pair in several spellings (incl. equal axes); out-of-range axes and malformed lists; seeded random rank 5 len<=4. Robustness streams: sizes (lib big_shapes + matrices with both axes >= 8: square, off by one, far from square, around 256/1024/4096 elements, up to [70,70]/[128,33]/[8,8,8,8]; the same lengths at rank 3-4 in every position; unit axes next to long ones; rank 9; thorough: every [a,b] with 7<=a,b<=17): flip none/every axis/lists, flipud/fliplr, roll flat and per axis for shifts around 0, d/2, d, beyond, lists with one axis under two spellings, rot90 k=0..7 x every ordered axis pair (>= 2000 elements: k=1,2,3 x four pairs), malformed; zero-length shapes (lib zero_shapes + [3,0,2],[1,0,1],[0,3,1],[2,2,0,2]) through every op; arrays holding the zero tag in most positions (f64/f32 image -0.0, compared bit-wise); seeded random rank 2-4 with axis lengths <= 17 (thorough <= 40). EVERY case runs on Array<i64> (the compared answer), on the u8 and f64 (tag 0 = -0.0, bit-wise) images, one small case in three also on i8 / bool / String / f32, each on the plain receiver AND on Ok(array) through the Result-receiver impl, and the i64 call twice; any divergence fails the case. Tag arrays: shape and every element compared. non-trivial = >=2 axes longer than 1" });
+        rule: "every shape rank<=4 len<=3 (+ lengths 4-5): flip none / every axis +- / every ordered pair / triples; flipud, fliplr; roll along the flat order for shifts in [-3n,3n] (+ far beyond), along every axis +- for every shift in [-3d,3d] (+ far beyond), 2-element axis/shift lists incl. repeated axes and one shift for two axes; rot90 k=0..7 x every ordered axis pair in several spellings (incl. equal axes); out-of-range axes and malformed lists; seeded random rank 5 len<=4. Robustness streams: sizes (lib big_shapes + matrices with both axes >= 8: square, off by one, far from square, around 256/1024/4096 elements, up to [70,70]/[128,33]/[8,8,8,8]; the same lengths at rank 3-4 in every position; unit axes next to long ones; rank 9; thorough: every [a,b] with 7<=a,b<=17): flip none/every axis/lists, flipud/fliplr, roll flat and per axis for shifts around 0, d/2, d, beyond, lists with one axis under two spellings, rot90 k=0..7 x every ordered axis pair (>= 2000 elements: k=1,2,3 x four pairs), malformed; zero-length shapes (lib zero_shapes + [3,0,2],[1,0,1],[0,3,1],[2,2,0,2]) through every op; arrays holding the zero tag in most positions (f64/f32 image -0.0, compared bit-wise); seeded random rank 2-4 with axis lengths <= 17 (thorough <= 40). EVERY case runs on Array<i64> (the compared answer), on the u8 and f64 (tag 0 = -0.0, bit-wise) images, one small case in three also on i8 / bool / String / f32, each on the plain receiver AND on Ok(array) through the Result-receiver impl, and the i64 call twice; any divergence fails the case. Tag arrays: shape and every element compared.  Part 2: seq lines (calls back to back on one thread: shapes colliding under weak hashes with equal element counts, permuted / regrouped shapes, all axis pairs of one shape, refused-then-valid, A-B-A), n lines (16384..140000 elements, axes above 65536) judged by the harness-native coordinate-formula reference, which is compared with the full model answer on every other case of the run (oracle_report lines); every axis length 1..300 in a non-leading position; shifts / turn counts / axes c+2^8, c+2^16, c+2^32; ranks 5-8 with axis / shift lists of 3-6 entries; implicit A-B-A re-runs in exec. non-trivial = >=2 axes longer than 1 (seq / n lines: some call of the line)" });
 }
